@@ -274,7 +274,7 @@ var assumptions = []string{
 	"representations the federation spec does not allow (unknown / missing __typename, missing / null key, nested key not an object, missing required field) are expected to be answered null with an error at their own index and to leave every other element untouched (gqlgen does not reject the whole request for them); the reference selects the first @key whose fields are all present and not all null",
 	"only fields whose value the statement defines are selected: Req{id weight cost} / MultiReq{id weight cost} in default mode (weight copied from the representation by generated code), Req{id weight cost} (cost, weight set by the user-written populator from the representation it is handed) and MultiReq{id weight} under explicit_requires (gqlgen does not call populators on the multi path), Req{id cost} / MultiReq{id cost} under computed_requires (cost computed by the field resolver from the representation it is handed)",
 	"stub resolvers behave like real resolvers that hand their context to a backend client: after their scheduling point they return ctx.Err() when their context has been cancelled; the harness never cancels the request context, so any cancellation is the doing of the code under test (context is swapped for vcontext in the instrumented generated code: cancel is a visible operation)",
-	"key VALUES of the wrong JSON type (object / list for ID! / String!, string for Int!) are in the alphabet for single, multi and nested keys: such a representation must be null with an error and must not move any other element. For a multi-resolver batch that contains one, gqlgen rejects the whole batch call before invoking the resolver; this whole-batch rejection (every representation of that batch null, with an error) is accepted ONLY for batches containing such a not-well-formed representation. Values gqlgen's lenient scalars coerce (bool for ID!, number for String!) may be answered either way (null + error, or the entity of the coerced key): whether they are accepted is input coercion (C02)",
+	"key VALUES of the wrong JSON type (object / list for ID! / String!, string for Int!) are in the alphabet for single, multi and nested keys: such a representation must be null with an error and must not move any other element. For a multi-resolver batch that contains one, gqlgen rejects the whole batch call before invoking the resolver; this whole-batch rejection (every representation of that batch null, with an error) is accepted ONLY for batches containing such a not-well-formed representation. Values gqlgen's lenient scalars coerce (bool for ID!, number for String!; a null component of a key that is not all null, read as \"\" / \"null\" / 0) may be answered either way (null + error, or the entity of the coerced key): whether they are accepted is input coercion (C02)",
 	"memory-level data races are invisible to a cooperative scheduler (generated code writes list[rep.index] from several goroutines: distinct indices, checked here only through the resulting values)",
 }
 
@@ -410,7 +410,8 @@ func main() {
 	for _, l := range c20.Alphabet {
 		names = append(names, l.Name+"="+l.JSON)
 	}
-	c.Cov["bounds"] = map[string]any{"alphabet": names, "fault_kinds": []string{"error", "panic", "nil"},
+	c.Cov["bounds"] = map[string]any{"alphabet": names,
+		"key_combination_stage": fmt.Sprintf("entities Tri / MultiTri with @key(upc region) @key(sku) @key(id): all %d representations {present non-null, null, absent}^4 over their key fields, each alone (fault-free + every single fault) and paired in both orders with a well-formed same-type and a different-type representation (fault-free); every schedule, no bound; in both tiers and every configuration", len(c20.KeyCombos)), "fault_kinds": []string{"error", "panic", "nil"},
 		"max_steps": 20000, "max_deviations_seen": maxCost, "max_steps_seen": maxStepsSeen, "configurations": len(run)}
 	c.Cov["per_config"] = per
 	c.Cov["configs_rejected_by_generator"] = notGenerated
